@@ -101,7 +101,12 @@ def call_spec(draw, p, max_attempts: int):
                 st.lists(st.one_of(st.integers(0, 8), st.sampled_from([-2, -1, 0, 1, 2]).map(lambda d: {"until": d})), max_size=max_attempts)
             )
         else:
-            c["overshoot"] = draw(st.lists(st.one_of(st.just(0), st.integers(0, 64)), max_size=max_attempts))
+            c["overshoot"] = draw(
+                st.lists(
+                    st.one_of(st.just(0), st.integers(0, 64), st.sampled_from([0, 1, 2]).map(lambda k: {"skip": True, "plus": k})),
+                    max_size=max_attempts,
+                )
+            )
     ab = p.get("abort", 0.25)
     if ab and chance(draw, ab, "s7"):
         c["abort"] = draw(st.integers(0, 3 * max_attempts + 1))
